@@ -23,16 +23,34 @@ type VerifClientOpts struct {
 	RefreshInterval     int // ms
 	Registrar           registry.Registrar
 	MsgID               int32
+	KeepApp             bool // use the application created by VerifNewApp (client and server in one process)
+}
+
+// VerifNewApp installs a fresh default application (no flags, no config file, no reporters).
+func VerifNewApp() *application {
+	rogger.SetLevel(rogger.OFF)
+	app := newApp()
+	app.initOnce.Do(func() {})
+	defaultApp = app
+	return app
+}
+
+// VerifNewServer builds the server-side protocol object and transport server for
+// one servant exactly as addServantCommon does, on the current default application.
+func VerifNewServer(disp dispatch, imp interface{}, withContext bool, cfg *transport.TarsServerConf) (*transport.TarsServer, *Protocol) {
+	jp := NewTarsProtocol(disp, imp, withContext)
+	jp.app = defaultApp
+	return transport.NewTarsServer(jp, cfg), jp
 }
 
 // VerifNewCommunicator builds a fresh application and communicator inside a
 // controlled execution without reading flags / config files and without
 // starting the stat and property reporters.
 func VerifNewCommunicator(o VerifClientOpts) *Communicator {
-	rogger.SetLevel(rogger.OFF)
-	app := newApp()
-	app.initOnce.Do(func() {})
-	defaultApp = app
+	app := defaultApp
+	if !o.KeepApp {
+		app = VerifNewApp()
+	}
 	msgID = o.MsgID
 	c := app.cltCfg
 	if o.AsyncInvokeTimeout != 0 {
